@@ -611,4 +611,273 @@ theorem C13_world_only_running (w : World) (side : Side) (u ip port proto : Nat)
       · exact Frame.refl w
       · exact C13_world_run_frame _ _ _
 
+/-! ### a DNS lookup and an NTP time request, end to end -/
+
+theorem handles_isOn (n : Node) (u : Nat) (h : n.handles u = true) : n.isOn = true := by
+  unfold Node.handles at h
+  simp only [Bool.and_eq_true] at h
+  exact h.1
+
+/-- **A DNS lookup, end to end.**  A DNS client `u` on one node (RUNNING, node ON, name not cached, configured with the
+peer's address), the peer's port 53/tcp owned by a DNS server `v` (the only receiver there), the client the only receiver
+of 53/tcp on its own node, both frames accepted.  Then `check_domain_exists(name)`:
+* if the server is RUNNING on an ON node: answers True iff the name is registered; the client's cache afterwards is the
+  old cache plus exactly `name ↦ registered address` (unchanged when the name is not registered); the server's table is
+  untouched; the exchange ends (the transport does not run out of fuel);
+* if the server may not act (not RUNNING): answers False and the cache is unchanged. -/
+theorem C13_dns_lookup_end_to_end (w : World) (side : Side) (u v : Nat) (name : String)
+    (cache tbl : List (String × Nat)) (srv : Nat)
+    (hcl : dget u (w.get side).data = some (.dnsClient cache (some srv)))
+    (hact : (w.get side).n.handles u = true)
+    (hmiss : dhas name cache = false)
+    (haddr : srv = (w.get side.other).addr)
+    (hon : (w.get side.other).n.isOn = true)
+    (hacc : (w.get side.other).n.frameAccepted (.tcp 53) false = true)
+    (hpath : recvCalls (w.get side.other).n 53 1 false = [(v, false)])
+    (hsrv : dget v (w.get side.other).data = some (.dnsServer tbl))
+    (hacc2 : (w.get side).n.frameAccepted (.tcp 53) false = true)
+    (hpath2 : recvCalls (w.get side).n 53 1 false = [(u, false)]) :
+    ((w.get side.other).n.handles v = true →
+      (w.dnsQuery side u name).2 = (dget name tbl).isSome ∧
+      dget u ((w.dnsQuery side u name).1.get side).data =
+        some (.dnsClient (match dget name tbl with | some ip => dset name ip cache | none => cache) (some srv)) ∧
+      dget v ((w.dnsQuery side u name).1.get side.other).data = some (.dnsServer tbl) ∧
+      (w.dnsQuery side u name).1.overflow = w.overflow) ∧
+    ((w.get side.other).n.handles v = false →
+      (w.dnsQuery side u name).2 = false ∧
+      dget u ((w.dnsQuery side u name).1.get side).data = some (.dnsClient cache (some srv))) := by
+  have hon1 := handles_isOn _ _ hact
+  have hloc : (w.get side).dnsLookupLocal u name = .inr srv := by
+    simp [NetNode.dnsLookupLocal, hcl, hact, hmiss]
+  subst haddr
+  have hm : dget name cache = none := by
+    unfold dhas at hmiss
+    cases h : dget name cache with
+    | none => rfl
+    | some x => simp [h] at hmiss
+  constructor
+  · intro hsact
+    cases side <;>
+      simp only [Side.other, World.get] at hcl hact hon hacc hpath hsrv hacc2 hpath2 hsact hon1 hloc ⊢ <;>
+      (cases hlk : dget name tbl <;>
+        simp only [World.dnsQuery, World.send, World.fuel, hloc, World.run, World.get, World.set, NetNode.recvAt, hsrv, hsact,
+          Data.receive, hlk, Bool.not_true, Bool.false_eq_true, if_false, List.map_cons, List.map_nil, List.cons_append,
+          List.nil_append, World.route, Side.other, World.hdrOf, if_true, hon, hon1, hacc, hacc2, Payload.isScan,
+          Bool.and_self, Bool.and_true, hpath, hpath2, hcl, hact, dget_dset, NetNode.dnsCached, beq_self_eq_true,
+          Bool.true_and, Option.isSome_none, Option.isSome_some, Ret.ofBool, hm, and_self, and_true, true_and])
+  · intro hsact
+    cases side <;>
+      simp only [Side.other, World.get] at hcl hact hon hacc hpath hsrv hacc2 hpath2 hsact hon1 hloc ⊢ <;>
+      simp only [World.dnsQuery, World.send, World.fuel, hloc, World.run, World.get, World.set, NetNode.recvAt, hsrv, hsact,
+        Data.receive, Bool.not_false, if_true, List.map_nil, List.nil_append, World.route, Side.other, World.hdrOf, hon,
+        hon1, hacc, hacc2, Payload.isScan, Bool.and_self, Bool.and_true, hpath, hpath2, hcl, hact, dget_dset,
+        NetNode.dnsCached, beq_self_eq_true, Bool.true_and, hm, Option.isSome_none] <;>
+      exact ⟨trivial, trivial⟩
+
+/-- non-vacuity of `C13_dns_lookup_end_to_end`, and the lookup of an unregistered name: node a = a computer's dns-client
+configured with b's address, node b = dns-client + dns-server (the server, installed later, owns 53/tcp). -/
+example :
+    let cl : Cls := { cid := "DNSClient", name := "dns-client", port := 53, proto := 1 }
+    let sv : Cls := { cid := "DNSServer", name := "dns-server", port := 53, proto := 1 }
+    let a : NetNode := (({ addr := 1, n := ({} : Node).run [.installSvc cl true [] .good 2] } : NetNode).adopt).setData 0
+      (.dnsClient [] (some 2))
+    let b : NetNode := (({ addr := 2, n := ({} : Node).run [.installSvc cl true [] .good 2, .installSvc sv true [] .good 2] } :
+      NetNode).adopt).setData 1 (.dnsServer [("x.test", 77)])
+    let w : World := { a := a, b := b }
+    (w.dnsQuery .a 0 "x.test").2 = true ∧ (w.dnsQuery .a 0 "x.test").1.a.dnsCached 0 "x.test" = some 77 ∧
+    (w.dnsQuery .a 0 "y.test").2 = false ∧ (w.dnsQuery .a 0 "y.test").1.a.data = a.data ∧
+    (w.dnsQuery .a 0 "x.test").1.log.map (fun e => (e.1, e.2.uid, e.2.handled)) = [(.b, 1, true), (.a, 0, true)] := by decide
+
+/-- **A frame for a closed port changes nothing**: when the peer does not accept the frame (its port has no RUNNING owner,
+or a node is not ON), a send leaves the whole world as it was. -/
+theorem C13_closed_port_drops (w : World) (side : Side) (u ip port proto : Nat) (p : Payload)
+    (h : w.route side { src := u, dst := .ip ip, port := port, proto := proto, payload := p } = none) :
+    w.send side u ip port proto p = w := by
+  simp [World.send, World.fuel, World.run, h]
+
+theorem route_none_of_closed (w : World) (side : Side) (s : Sent)
+    (h : ∀ hd, World.hdrOf s.port s.proto = some hd → (w.get side.other).n.frameAccepted hd s.payload.isScan = false) :
+    w.route side s = none := by
+  unfold World.route
+  cases hh : World.hdrOf s.port s.proto with
+  | none => rfl
+  | some hd => simp [h hd hh]
+
+theorem hdrOf_udp (p : Nat) : World.hdrOf p 2 = some (.udp p) := by simp [World.hdrOf]
+
+/-- **An NTP time request, end to end.**  An NTP client `u` configured with the peer's address, both nodes ON, 123/udp on
+the peer owned by an NTP server `v` (the only receiver there), the client the only receiver of 123/udp on its own node,
+both frames accepted.  After `request_time()`: if both the server and the client are RUNNING, the client's time is exactly the
+server's clock reading; if either is not RUNNING, the client's time is what it was. -/
+theorem C13_ntp_request_end_to_end (w : World) (side : Side) (u v : Nat) (t : Option Nat) (srv : Nat)
+    (hcl : dget u (w.get side).data = some (.ntpClient t (some srv)))
+    (haddr : srv = (w.get side.other).addr)
+    (hon1 : (w.get side).n.isOn = true)
+    (hon : (w.get side.other).n.isOn = true)
+    (hacc : (w.get side.other).n.frameAccepted (.udp 123) false = true)
+    (hpath : recvCalls (w.get side.other).n 123 2 false = [(v, false)])
+    (hsrv : dget v (w.get side.other).data = some .ntpServer)
+    (hacc2 : (w.get side).n.frameAccepted (.udp 123) false = true)
+    (hpath2 : recvCalls (w.get side).n 123 2 false = [(u, false)]) :
+    ((w.get side.other).n.handles v = true → (w.get side).n.handles u = true →
+      ((w.ntpRequest side u).get side).ntpTime u = some (w.get side.other).now ∧
+      (w.ntpRequest side u).overflow = w.overflow) ∧
+    ((w.get side.other).n.handles v = false ∨ (w.get side).n.handles u = false →
+      ((w.ntpRequest side u).get side).ntpTime u = t) := by
+  subst haddr
+  constructor
+  · intro hsact hact
+    cases side <;>
+      simp only [Side.other, World.get] at hcl hon hon1 hacc hpath hsrv hacc2 hpath2 hsact hact ⊢ <;>
+      simp only [World.ntpRequest, World.send, World.fuel, World.run, World.get, World.set, NetNode.recvAt, hsrv, hsact,
+        Data.receive, Bool.not_true, Bool.false_eq_true, if_false, List.map_cons, List.map_nil, List.cons_append,
+        List.nil_append, World.route, Side.other, hdrOf_udp, if_true, hon, hon1, hacc, hacc2, Payload.isScan,
+        Bool.and_self, Bool.and_true, hpath, hpath2, hcl, hact, dget_dset, NetNode.ntpTime, beq_self_eq_true,
+        Bool.true_and, and_self, and_true, true_and] <;>
+      simp [dget_dset]
+  · intro hor
+    rcases hor with hsact | hact
+    · cases side <;>
+        simp only [Side.other, World.get] at hcl hon hon1 hacc hpath hsrv hacc2 hpath2 hsact ⊢ <;>
+        simp only [World.ntpRequest, World.send, World.fuel, World.run, World.get, World.set, NetNode.recvAt, hsrv, hsact,
+          Data.receive, Bool.not_false, if_true, List.map_nil, List.nil_append, World.route, Side.other, hdrOf_udp, hon,
+          hon1, hacc, hacc2, Payload.isScan, Bool.and_self, Bool.and_true, hpath, hpath2, hcl, dget_dset, NetNode.ntpTime,
+          beq_self_eq_true, Bool.true_and] <;>
+        simp [dget_dset, hcl]
+    · cases hsact : (w.get side.other).n.handles v <;>
+      cases side <;>
+        simp only [Side.other, World.get] at hcl hon hon1 hacc hpath hsrv hacc2 hpath2 hsact hact ⊢ <;>
+        simp only [World.ntpRequest, World.send, World.fuel, World.run, World.get, World.set, NetNode.recvAt, hsrv, hsact, hact,
+          Data.receive, Bool.not_false, Bool.not_true, Bool.false_eq_true, if_false, if_true, List.map_nil, List.map_cons,
+          List.cons_append, List.nil_append, World.route, Side.other, hdrOf_udp, hon,
+          hon1, hacc, hacc2, Payload.isScan, Bool.and_self, Bool.and_true, hpath, hpath2, hcl, dget_dset, NetNode.ntpTime,
+          beq_self_eq_true, Bool.true_and] <;>
+        simp [dget_dset, hcl]
+
+/-! ## 5. connection bookkeeping -/
+
+/-- **Health becomes OVERWHELMED exactly when a connection is requested at capacity**: after `add_connection`, the health is
+OVERWHELMED iff the connections had reached `max_sessions` — whatever the health was before (an OVERWHELMED software with room
+again becomes GOOD on the next request) — and in that case the request is declined and the connections are unchanged. -/
+theorem C13_conn_overwhelmed_iff (c : Conn) (id : String) :
+    ((c.add id).1.health = .overwhelmed ↔ c.conns.length ≥ c.maxSessions) ∧
+    (c.conns.length ≥ c.maxSessions → (c.add id).2 = false ∧ (c.add id).1.conns = c.conns) := by
+  rcases c with ⟨conns, mx, health⟩
+  by_cases h : conns.length ≥ mx
+  · simp [Conn.add, h]
+  · cases health <;> by_cases hm : id ∈ conns <;> simp [Conn.add, h, hm]
+
+/-- a request below capacity: accepted iff the id is new, then it is the last connection; health OVERWHELMED → GOOD,
+any other health is kept -/
+theorem C13_conn_add_below_capacity (c : Conn) (id : String) (h : c.conns.length < c.maxSessions) :
+    ((c.add id).2 = true ↔ id ∉ c.conns) ∧
+    (c.add id).1.conns = (if id ∈ c.conns then c.conns else c.conns ++ [id]) ∧
+    (c.add id).1.health = (if c.health = .overwhelmed then .good else c.health) := by
+  rcases c with ⟨conns, mx, health⟩
+  have hn : ¬ conns.length ≥ mx := by simp only at h; omega
+  cases health <;> by_cases hm : id ∈ conns <;> simp [Conn.add, hn, hm]
+
+theorem conn_add_shape (c : Conn) (id : String) :
+    (c.add id).1.maxSessions = c.maxSessions ∧
+    ((c.add id).1.conns = c.conns ∨
+      ((c.add id).1.conns = c.conns ++ [id] ∧ id ∉ c.conns ∧ c.conns.length < c.maxSessions)) := by
+  rcases c with ⟨conns, mx, health⟩
+  by_cases h : conns.length ≥ mx
+  · simp [Conn.add, h]
+  · have hlt : conns.length < mx := by omega
+    cases health <;> by_cases hm : id ∈ conns <;> simp [Conn.add, h, hm, hlt]
+
+/-- the number of connections never exceeds `max_sessions`, and no id is held twice — after any sequence of
+`add_connection` / `terminate_connection` calls -/
+theorem C13_conn_bounded (ops : List Conn.COp) (c : Conn) (h : c.conns.length ≤ c.maxSessions) (hn : c.conns.Nodup) :
+    (c.run ops).conns.length ≤ (c.run ops).maxSessions ∧ (c.run ops).conns.Nodup ∧ (c.run ops).maxSessions = c.maxSessions := by
+  induction ops generalizing c with
+  | nil => exact ⟨h, hn, rfl⟩
+  | cons op ops ih =>
+    simp only [Conn.run]
+    have key : (c.step op).1.conns.length ≤ (c.step op).1.maxSessions ∧ (c.step op).1.conns.Nodup ∧
+        (c.step op).1.maxSessions = c.maxSessions := by
+      cases op with
+      | add id =>
+        obtain ⟨hmx, hshape⟩ := conn_add_shape c id
+        show (c.add id).1.conns.length ≤ (c.add id).1.maxSessions ∧ (c.add id).1.conns.Nodup ∧ _
+        rw [hmx]
+        rcases hshape with he | ⟨he, hnm, hlt⟩
+        · rw [he]; exact ⟨h, hn, hmx⟩
+        · rw [he]
+          refine ⟨by simp; omega, ?_, hmx⟩
+          rw [List.nodup_append]
+          refine ⟨hn, by simp, ?_⟩
+          intro a ha b hb
+          simp only [List.mem_singleton] at hb
+          subst hb
+          intro hab; subst hab; exact hnm ha
+      | terminate id sd =>
+        show (c.terminate id sd).1.conns.length ≤ (c.terminate id sd).1.maxSessions ∧ (c.terminate id sd).1.conns.Nodup ∧ _
+        have hmx : (c.step (Conn.COp.terminate id sd)).1.maxSessions = c.maxSessions := by
+          simp only [Conn.step, Conn.terminate]; split <;> rfl
+        unfold Conn.terminate
+        by_cases hc : c.conns.contains id = true
+        · rw [if_pos hc]
+          exact ⟨Nat.le_trans (List.length_filter_le _ _) h, hn.filter _, hmx⟩
+        · rw [if_neg hc]
+          exact ⟨h, hn, hmx⟩
+    obtain ⟨k1, k2, k3⟩ := key
+    obtain ⟨i1, i2, i3⟩ := ih (c.step op).1 k1 k2
+    exact ⟨i1, i2, i3.trans k3⟩
+
+/-- `terminate_connection` removes exactly that connection and does NOT touch the health: an OVERWHELMED software stays
+OVERWHELMED until the next connection request finds room (observation about the code, not a defect of the property) -/
+theorem C13_conn_terminate (c : Conn) (id : String) (sd : Bool) :
+    (c.terminate id sd).1.health = c.health ∧ id ∉ (c.terminate id sd).1.conns ∧
+    (∀ x, x ≠ id → (x ∈ (c.terminate id sd).1.conns ↔ x ∈ c.conns)) ∧
+    ((c.terminate id sd).2 = true ↔ id ∈ c.conns ∧ sd = true) := by
+  rcases c with ⟨conns, mx, health⟩
+  by_cases hm : id ∈ conns
+  · refine ⟨?_, ?_, ?_, ?_⟩ <;> simp [Conn.terminate, hm]
+    intro x hx _; exact hx
+  · refine ⟨?_, ?_, ?_, ?_⟩ <;> simp [Conn.terminate, hm]
+
+/-- non-vacuity: capacity 2 — the third request overwhelms, a termination alone does not recover, the next request does -/
+example :
+    let c : Conn := { maxSessions := 2 }
+    (c.run [.add "a", .add "b"]).health = .good ∧ (c.run [.add "a", .add "b", .add "c"]).health = .overwhelmed ∧
+    (c.run [.add "a", .add "b", .add "c", .terminate "a" true]).health = .overwhelmed ∧
+    (c.run [.add "a", .add "b", .add "c", .terminate "a" true, .add "c"]).health = .good ∧
+    (c.run [.add "a", .add "b", .add "c", .terminate "a" true, .add "c"]).conns = ["b", "c"] := by decide
+
+/-! ## 6. Gen obligations of the payload model -/
+
+/-- the methods the payload model follows read, statement for statement (logging dropped), as the model assumes:
+the running-guard first, the type check, "a reply is not a request" in both servers, "no reply, no time" in the NTP client,
+the reply written into the packet that was handed in (`generate_reply` returns `self`), `request_time` without a guard of its
+own and called by `apply_timestep` only while RUNNING, `add_connection` / `terminate_connection` as `Conn.add` /
+`Conn.terminate`, `send` / `receive` of IOSoftware behind `_can_perform_action`, `HostNode.receive_frame` as
+`Node.frameAccepted`.  Any edit of one of these methods changes the regenerated list and this obligation no longer checks. -/
+theorem C13_gen_method_bodies :
+    Gen.SoftwareRecv.methodBodies = [
+  ("DNSServer.receive", ["if not super().receive(payload=payload, session_id=session_id, **kwargs) { return False }", "if not isinstance(payload, DNSPacket) { return False }", "if payload.dns_reply is not None { return False }", "if payload.dns_request is not None { payload = payload.generate_reply(self.dns_lookup(payload.dns_request.domain_name_request)); self.send(payload, session_id); return payload.dns_reply.domain_name_ip_address is not None }", "return False"]),
+  ("DNSServer.dns_lookup", ["if not self._can_perform_action() { return }", "return self.dns_table.get(target_domain)"]),
+  ("DNSServer.dns_register", ["if not self._can_perform_action() { return }", "self.dns_table[domain_name] = domain_ip_address"]),
+  ("DNSClient.receive", ["if not super().receive(payload=payload, session_id=session_id, **kwargs) { return False }", "if not isinstance(payload, DNSPacket) { return False }", "if payload.dns_reply is not None { if payload.dns_reply.domain_name_ip_address { self.dns_cache[payload.dns_request.domain_name_request] = payload.dns_reply.domain_name_ip_address; return True } }", "return False"]),
+  ("DNSClient.add_domain_to_cache", ["if not self._can_perform_action() { return False }", "self.dns_cache[domain_name] = ip_address", "return True"]),
+  ("DNSClient.check_domain_exists", ["if not self._can_perform_action() { return False }", "if target_domain in self.dns_cache { return True }", "if self.dns_server is None { return False }", "payload = DNSPacket(dns_request=DNSRequest(domain_name_request=target_domain))", "if is_reattempt { return False } else { software_manager: SoftwareManager = self.software_manager; software_manager.send_payload_to_session_manager(payload=payload, dest_ip_address=self.dns_server, dest_port=PORT_LOOKUP['DNS']); return self.check_domain_exists(target_domain=target_domain, session_id=session_id, is_reattempt=True) }"]),
+  ("NTPServer.receive", ["if not super().receive(payload=payload, session_id=session_id, **kwargs) { return False }", "if not isinstance(payload, NTPPacket) { return False }", "if payload.ntp_reply is not None { return False }", "time = datetime.now()", "payload = payload.generate_reply(time)", "self.software_manager.session_manager.receive_payload_from_software_manager(payload=payload, src_port=self.port, dst_port=self.port, ip_protocol=self.protocol, session_id=session_id)", "return True"]),
+  ("NTPClient.receive", ["if not super().receive(payload=payload, session_id=session_id, **kwargs) { return False }", "if not isinstance(payload, NTPPacket) { return False }", "if payload.ntp_reply is None { return False }", "if payload.ntp_reply.ntp_datetime { self.time = payload.ntp_reply.ntp_datetime; return True }"]),
+  ("NTPClient.request_time", ["if self.config.ntp_server_ip { self.software_manager.session_manager.receive_payload_from_software_manager(payload=NTPPacket(), dst_ip_address=self.config.ntp_server_ip, src_port=self.port, dst_port=self.port, ip_protocol=self.protocol) }"]),
+  ("NTPClient.apply_timestep", ["super().apply_timestep(timestep)", "if self.operating_state == ServiceOperatingState.RUNNING { self.request_time() }"]),
+  ("DNSPacket.generate_reply", ["self.dns_reply = DNSReply(domain_name_ip_address=domain_ip_address)", "return self"]),
+  ("NTPPacket.generate_reply", ["self.ntp_reply = NTPReply(ntp_datetime=ntp_server_time)", "return self"]),
+  ("IOSoftware.add_connection", ["if len(self._connections) >= self.max_sessions { self.set_health_state(SoftwareHealthState.OVERWHELMED); return False } else { if self.health_state_actual == SoftwareHealthState.OVERWHELMED { self.set_health_state(SoftwareHealthState.GOOD) }; if not self._connections.get(connection_id) { session_details = None; if session_id { session_details = self._get_session_details(session_id) }; self._connections[connection_id] = {'session_id': session_id, 'ip_address': session_details.with_ip_address if session_details else None, 'time': datetime.now()}; return True }; return False }"]),
+  ("IOSoftware.terminate_connection", ["if self.connections.get(connection_id) { connection_dict = self._connections.pop(connection_id); if send_disconnect { self.software_manager.send_payload_to_session_manager(payload={'type': 'disconnect', 'connection_id': connection_id}, session_id=connection_dict['session_id']); return True } }", "return False"]),
+  ("IOSoftware.send", ["if not self._can_perform_action() { return False }", "return self.software_manager.send_payload_to_session_manager(payload=payload, dest_ip_address=dest_ip_address, dest_port=dest_port, ip_protocol=ip_protocol, session_id=session_id)"]),
+  ("IOSoftware.receive", ["return self._can_perform_action()"]),
+  ("HostNode.receive_frame", ["super().receive_frame(frame, from_network_interface)", "dst_port = None", "if frame.tcp { dst_port = frame.tcp.dst_port } else { if frame.udp { dst_port = frame.udp.dst_port } }", "can_accept_nmap = False", "if self.software_manager.software.get('nmap') { if self.software_manager.software['nmap'].operating_state == ApplicationOperatingState.RUNNING { can_accept_nmap = True } }", "accept_nmap = can_accept_nmap and frame.payload.__class__.__name__ == 'PortScanPayload'", "accept_frame = False", "if frame.icmp or dst_port in self.software_manager.get_open_ports() or accept_nmap { accept_frame = True }", "if accept_frame { self.session_manager.receive_frame(frame, from_network_interface) } else { pass }"])] := by
+  rfl
+
+/-- well-known ports the end-to-end theorems use, and the default capacity of `Conn` -/
+theorem C13_gen_recv_constants :
+    Gen.SoftwareRecv.portDNS = 53 ∧ Gen.SoftwareRecv.portNTP = 123 ∧
+    Gen.SoftwareRecv.maxSessionsDefault = ({} : Conn).maxSessions := by decide
+
 end Primaite.C13
